@@ -161,6 +161,8 @@ def parity_case(draw, n_pred=1, with_lambda=0, moments=MOMENTS):
                 st.lists(lam, min_size=max(m, 1), max_size=max(m, 1))
             )
     case["preload"] = draw(st.sampled_from([0, 0, 0, 1, 2, 3]))
+    case["y_dtype"] = draw(st.sampled_from(gen.LABEL_DTYPES))
+    case["h_dtype"] = draw(st.sampled_from([None, None, "uint8", "bool", "int8", "int64"]))
     return case
 
 
@@ -176,12 +178,14 @@ def error_rate_case(draw, n_pred=1):
     for j in range(n_pred):
         case["h" if j == 0 else f"h{j + 1}"] = draw(prediction_vector(n))
     case["preload"] = draw(st.sampled_from([0, 0, 1, 2, 3]))
+    case["y_dtype"] = draw(st.sampled_from(gen.LABEL_DTYPES))
+    case["h_dtype"] = draw(st.sampled_from([None, None, "uint8", "bool", "int8", "int64"]))
     return case
 
 
 @st.composite
 def cost_spec(draw):
-    cost = st.one_of(st.sampled_from([0.0, 1.0, 0.5, 2.0, 3.0]), st.floats(0.0, 10.0, allow_nan=False))
+    cost = st.one_of(st.sampled_from([0.0, 1.0, 0.5, 2.0, 3.0, 1, 2, 0]), st.floats(0.0, 10.0, allow_nan=False))
     if draw(st.integers(0, 3)) == 0:
         return None
     fp, fn = draw(cost), draw(cost)
@@ -216,6 +220,13 @@ def loss_case(draw, n_pred=1):
     case["upper_bound"] = draw(st.one_of(st.sampled_from([0.1, 0.0, 1.0]), st.floats(0.0, 5.0, allow_nan=False)))
     for j in range(n_pred):
         case["h" if j == 0 else f"h{j + 1}"] = draw(st.lists(_real, min_size=n, max_size=n))
+    if draw(st.integers(0, 2)) == 0:
+        # a classification problem under a loss moment: 0/1 labels and hard predictions in whatever element type
+        case["y"] = [float(v) for v in draw(st.lists(st.integers(0, 1), min_size=n, max_size=n))]
+        for j in range(n_pred):
+            case["h" if j == 0 else f"h{j + 1}"] = [float(v) for v in draw(st.lists(st.integers(0, 1), min_size=n, max_size=n))]
+        case["y_dtype"] = draw(st.sampled_from(gen.LABEL_DTYPES))
+        case["h_dtype"] = draw(st.sampled_from([None, "uint8", "bool", "int8", "int64"]))
     case["preload"] = draw(st.sampled_from([0, 0, 1, 2, 3]))
     return case
 
@@ -231,6 +242,9 @@ def build_X(case):
 
 
 def _wrap(case, key, name):
+    if key == "y" and case.get("y_dtype"):
+        # 0/1 labels in the element type a user's pipeline happens to produce (bool, uint8 from a comparison, ...)
+        return gen.typed_vector(case.get("y_kind", "list"), case["y"], case.get("y_index", "rev"), name=name, dtype=case["y_dtype"])
     return gen.wrap_vector(case.get(key + "_kind", "list"), case[key], case.get(key + "_index", "rev"), name=name)
 
 
@@ -336,9 +350,12 @@ def make_error_rate(costs):
     return m
 
 
-def predictor(vec):
-    """A callable predictor returning the generated prediction vector (1-d float ndarray)."""
+def predictor(vec, dtype=None):
+    """A callable predictor returning the generated prediction vector (1-d float ndarray; with ``dtype`` given and
+    hard 0/1 predictions, an array of that dtype - classifiers return labels in the dtype they were trained on)."""
     arr = np.asarray(vec, dtype=float)
+    if dtype and set(arr.tolist()) <= {0.0, 1.0}:
+        arr = arr.astype(dtype)
 
     def _predict(X):
         if X.shape[0] != len(arr):
